@@ -1,6 +1,1470 @@
+//! histsim: the whole public API driven by seeded / enumerated histories with fault operations
+//! (rejected calls, full descriptors, process exit) against small reference models; one forked
+//! process per history.  Serves C05, C12, C13, C14, C15.
+
+use std::collections::{BTreeMap, BTreeSet, HashSet};
+use std::os::unix::io::{AsRawFd, FromRawFd, IntoRawFd, RawFd};
+use std::os::unix::net::{UnixDatagram, UnixStream};
+use std::panic::{catch_unwind, AssertUnwindSafe};
+use std::sync::atomic::{AtomicBool, AtomicUsize, Ordering};
+use std::sync::Arc;
+
+use sighook_shim::shm;
+use sighook_shim::sim::{self, Config, ShimGuard};
+use signal_hook::iterator::backend::{Handle, SignalDelivery};
+use signal_hook::iterator::exfiltrator::{Exfiltrator, SignalOnly, WithOrigin, WithRawSiginfo};
+use signal_hook::iterator::SignalsInfo;
+use signal_hook::SigId;
+
 use crate::driver::RunSpec;
-use crate::props::Prop;
-pub const PROPS: &[Prop] = &[];
-pub fn run(_spec: &RunSpec) -> ! {
-    sighook_shim::sim::harness_error("engine not built yet")
+use crate::props::*;
+use crate::util::*;
+
+pub const HIST_REAL: &[&str] = &[
+    "the whole public API of signal-hook and signal-hook-registry: real code from /repo",
+    "real kernel: sigaction dispositions, pipes, stream and datagram socket pairs, fcntl, close, _exit, wait status of the forked process",
+    "std Mutex poisoning and unwinding (panics caught by the caller, double panic = abort)",
+];
+pub const HIST_STUB: &[&str] = &["asynchronous signal arrival (synchronous direct call of the kernel-reported disposition on the single simulated thread)", "no thread interleaving in this engine: the deciding dimension is the history and the injected rejected/faulting operation"];
+
+pub const PROPS: &[Prop] = &[
+    Prop {
+        id: "C05",
+        engine: Engine::Hist,
+        level: "exploration",
+        sweep_runs: 0,
+        quick_runs: 80_000,
+        thorough_runs: 2_000_000,
+        rule: "seeded histories of 5-400 operations over {register, register_sigaction, register_signal_unchecked, register_unchecked, unregister(live|stale id), unregister_signal, deliver} on 2-6 catchable signals per history (thorough: incl. real-time signals), checked operation by operation against the reference model (per-signal ordered tag lists, global id set) and against the kernel-visible disposition (same handler, SA_RESTART|SA_SIGINFO, forever). Non-trivial: the history contains a removal followed by a delivery of the same signal and involves >= 2 signals. Distinct: by hash of the operation history.",
+        probes: &[(E_HIST_OPS, "history_operations"), (E_HIST_DELIVERIES, "deliveries_checked_against_model"), (E_REMOVALS, "successful_removals")],
+        real: HIST_REAL,
+        stub: HIST_STUB,
+        assumptions: &["the EINTR observation is replaced by the SA_RESTART flag query (an asynchronous timer signal would be uncontrolled timing)", "SigId values cannot be forged through the public API, so 'never issued' ids are not generated"],
+    },
+    Prop {
+        id: "C12",
+        engine: Engine::Hist,
+        level: "exploration",
+        sweep_runs: 0,
+        quick_runs: 150_000,
+        thorough_runs: 4_000_000,
+        rule: "seeded histories over {new/with_pipe(list), add_signal(valid | watched | forbidden | negative | >=128 | OS-rejected), handle, clone, drop handle, drop instance, deliver + pending} for the three exfiltrators, every call under catch_unwind, an independent flag action as witness on every signal; reference model = watched set. Non-trivial: the history contains a rejected operation followed by at least one accepted operation or a drop. Distinct: by hash of the operation history.",
+        probes: &[(E_HIST_OPS, "history_operations"), (E_HIST_REJECTED, "rejected_operations"), (E_HIST_DELIVERIES, "deliveries_checked_against_model"), (E_FD_REUSE_PROBE, "cleanup_probes_after_last_owner_dropped")],
+        real: HIST_REAL,
+        stub: HIST_STUB,
+        assumptions: &["OS-rejected numbers on this kernel/libc: 0, 32, 33, 65..127"],
+    },
+    Prop {
+        id: "C13",
+        engine: Engine::Hist,
+        level: "fault_enumeration",
+        sweep_runs: 1728,
+        quick_runs: 30_000,
+        thorough_runs: 1_000_000,
+        rule: "grid: descriptor kind {pipe, stream socketpair, dgram socketpair} x initial mode {blocking, non-blocking} x fill {empty, one short of full, full} x burst {1, 2, 7, 300} x entry {pipe::register, register_raw, iterator-internal wake} x ending {unregister, forbidden signal, invalid signal, closed descriptor number} x 2 (second pipe on the same signal or not); then seeded histories. Oracles: bytes read back vs deliveries, would-block probe, descriptor validity after removal/rejection, descriptor-number reuse probe. Non-trivial: the descriptor was full or nearly full, or the registration was rejected. Distinct: by grid cell / history hash.",
+        probes: &[(E_PIPE_FULL, "deliveries_with_full_descriptor"), (E_HIST_REJECTED, "rejected_registrations"), (E_FD_REUSE_PROBE, "descriptor_number_reuse_probes"), (E_HIST_DELIVERIES, "deliveries_made")],
+        real: HIST_REAL,
+        stub: HIST_STUB,
+        assumptions: &["wall clock only as the watchdog for a wake that blocks anyway"],
+    },
+    Prop {
+        id: "C14",
+        engine: Engine::Hist,
+        level: "fault_enumeration",
+        sweep_runs: 4320,
+        quick_runs: 4_320 + 40_000,
+        thorough_runs: 4_320 + 1_500_000,
+        rule: "grid: 16 entry points (registry register/register_sigaction/2 unchecked, flag x4, pipe x2, iterator new/add_signal x 3 exfiltrators) x signal in [-2,130] + {i32::MIN, i32::MAX} x {fresh process, after three other signals were registered}; each cell in its own forked process under catch_unwind; thorough adds seeded mixes. Oracles: panic vs Err vs Ok as documented, dispositions of all 64 signals bit-identical after a rejection, previously registered actions still run, captured flag/descriptor released, library still usable. Non-trivial: the call was rejected (panic or error). Distinct: by grid cell.",
+        probes: &[(E_HIST_REJECTED, "rejected_calls"), (E_HIST_OPS, "calls_made")],
+        real: HIST_REAL,
+        stub: HIST_STUB,
+        assumptions: &["the OS verdict for the unchecked entry points is taken from a bare sigaction probe in the same process"],
+    },
+    Prop {
+        id: "C15",
+        engine: Engine::Hist,
+        level: "exploration",
+        sweep_runs: 0,
+        quick_runs: 300_000,
+        thorough_runs: 8_000_000,
+        rule: "seeded histories per forked process over {application store/swap on the flags, deliver, register, unregister} with flag::register, register_usize, register_conditional_shutdown in both registration orders, statuses 0..255, signals TERM/QUIT/INT/USR1/HUP; the parent compares the real wait status with the reference model's prediction and checks the atexit marker. Non-trivial: the history armed, disarmed or re-armed a condition before the deciding delivery, or the process was terminated by the shutdown. Distinct: by hash of the operation history.",
+        probes: &[(E_SHUTDOWN_EXITS, "runs_predicted_to_terminate"), (E_HIST_DELIVERIES, "deliveries_made"), (E_HIST_OPS, "history_operations")],
+        real: HIST_REAL,
+        stub: HIST_STUB,
+        assumptions: &["op-granular: a delivery is synchronous on the application thread"],
+    },
+];
+
+// ---------------------------------------------------------------------------------------------
+// common
+
+static mut RAN: Vec<usize> = Vec::new();
+fn ran() -> &'static mut Vec<usize> {
+    unsafe { &mut *std::ptr::addr_of_mut!(RAN) }
+}
+
+fn hist_action(tag: usize) {
+    let _g = ShimGuard::new();
+    ran().push(tag);
+}
+
+fn deliver(sig: i32, tag: u64) -> sim::Disposition {
+    let mut info = make_info(sig, tag);
+    let ctx = [0u64; 4];
+    sim::count(E_HIST_DELIVERIES, 1);
+    sim::deliver(sig, &mut info as *mut RawInfo as *mut libc::siginfo_t, &ctx as *const _ as *mut libc::c_void)
+}
+
+fn start(spec: &RunSpec) {
+    let cfg = Config { prop: spec.prop.id.to_string(), step_budget: 2_000_000, ..Config::default() };
+    sim::start(cfg);
+    sim::set_handler_step_limit(2000);
+}
+
+fn hmix(h: &mut u64, v: u64) {
+    *h ^= v.wrapping_add(0x9E3779B97F4A7C15);
+    *h = h.wrapping_mul(0x100000001b3);
+}
+
+pub fn run(spec: &RunSpec) -> ! {
+    ran().reserve(4096);
+    // a memory fault of the simulated process while the public API is driven is a violation of
+    // whatever property is being checked
+    shm::put_str(&mut shm::get().crash_prop, spec.prop.id);
+    match spec.prop.id {
+        "C05" => c05(spec),
+        "C12" => c12(spec),
+        "C13" => c13(spec),
+        "C14" => c14(spec),
+        "C15" => c15(spec),
+        _ => sim::harness_error("histsim: unknown property"),
+    }
+}
+
+fn panic_msg() -> String {
+    shm::get_str(&shm::get().panic_msg)
+}
+
+// ---------------------------------------------------------------------------------------------
+// C05
+
+fn c05_universe(tier: Tier) -> Vec<i32> {
+    let mut v: Vec<i32> = (1..=31).filter(|s| ![libc::SIGKILL, libc::SIGSTOP, libc::SIGILL, libc::SIGFPE, libc::SIGSEGV, libc::SIGBUS, libc::SIGABRT].contains(s)).collect();
+    if tier == Tier::Thorough {
+        v.extend(34..=64);
+    } else {
+        v.extend([34, 40, 64]);
+    }
+    v
+}
+
+fn c05(spec: &RunSpec) -> ! {
+    start(spec);
+    let uni = c05_universe(spec.tier);
+    let nsig = 2 + sim::work(5) as usize;
+    let mut sigs = Vec::new();
+    let mut pool = uni.clone();
+    for _ in 0..nsig {
+        sigs.push(pool.remove(sim::work(pool.len() as u32) as usize));
+    }
+    let nops = match sim::work(4) {
+        0 => 5 + sim::work(10),
+        1 => 15 + sim::work(30),
+        2 => 40 + sim::work(80),
+        _ => 100 + sim::work(300),
+    } as usize;
+    let initial: Vec<(usize, i32)> = (1..=64).map(get_disposition).collect();
+    let mut model: BTreeMap<i32, Vec<usize>> = BTreeMap::new();
+    let mut taken: BTreeSet<i32> = BTreeSet::new();
+    let mut ids: Vec<(SigId, usize, i32)> = Vec::new();
+    let mut idset: HashSet<SigId> = HashSet::new();
+    let mut lib_handler: Option<usize> = None;
+    let mut next_tag = 0usize;
+    let mut hh = 0u64;
+    let mut removal_then_delivery = false;
+    let mut removed_sigs: BTreeSet<i32> = BTreeSet::new();
+    let mut desc = format!("signals {:?}, {} ops: ", sigs, nops);
+    for k in 0..nops {
+        shm::get().progress = k as u32;
+        sim::count(E_HIST_OPS, 1);
+        let r = sim::work(100);
+        let touched: i32;
+        if ids.is_empty() || r < 35 {
+            let sig = sigs[sim::work(nsig as u32) as usize];
+            let variant = sim::work(4);
+            let tag = next_tag;
+            next_tag += 1;
+            let res = catch_unwind(AssertUnwindSafe(|| unsafe {
+                match variant {
+                    0 => signal_hook_registry::register(sig, move || hist_action(tag)),
+                    1 => signal_hook_registry::register_sigaction(sig, move |_| hist_action(tag)),
+                    2 => signal_hook_registry::register_signal_unchecked(sig, move || hist_action(tag)),
+                    _ => signal_hook_registry::register_unchecked(sig, move |_| hist_action(tag)),
+                }
+            }));
+            hmix(&mut hh, 1000 + sig as u64 * 4 + variant as u64);
+            if k < 40 {
+                desc.push_str(&format!("reg{}({})=#{} ", variant, sig, tag));
+            }
+            match res {
+                Ok(Ok(id)) => {
+                    if !idset.insert(id) {
+                        sim::report("C05", "id-reused", &format!("op {}: registration for signal {} returned an id handed out before ({:?})", k, sig, id), true);
+                    }
+                    ids.push((id, tag, sig));
+                    model.entry(sig).or_default().push(tag);
+                    taken.insert(sig);
+                }
+                Ok(Err(e)) => sim::report("C05", "registration-failed", &format!("op {}: registration for catchable signal {} failed: {}", k, sig, e), true),
+                Err(_) => sim::report("C05", "registration-panicked", &format!("op {}: registration for signal {} panicked: {}", k, sig, panic_msg()), true),
+            }
+            touched = sig;
+        } else if r < 65 {
+            let (id, tag, sig) = ids[sim::work(ids.len() as u32) as usize];
+            let got = signal_hook_registry::unregister(id);
+            let present = model.get(&sig).map(|v| v.contains(&tag)).unwrap_or(false);
+            hmix(&mut hh, 2000 + tag as u64);
+            if k < 40 {
+                desc.push_str(&format!("unreg(#{})={} ", tag, got));
+            }
+            if got != present {
+                sim::report("C05", "unregister-result", &format!("op {}: unregister of action #{} (signal {}) returned {} but the action was {}registered", k, tag, sig, got, if present { "" } else { "not " }), true);
+            }
+            if present {
+                model.get_mut(&sig).unwrap().retain(|t| *t != tag);
+                removed_sigs.insert(sig);
+                sim::count(E_REMOVALS, 1);
+            }
+            touched = sig;
+        } else if r < 73 {
+            let sig = sigs[sim::work(nsig as u32) as usize];
+            #[allow(deprecated)]
+            let got = signal_hook_registry::unregister_signal(sig);
+            let nonempty = model.get(&sig).map(|v| !v.is_empty()).unwrap_or(false);
+            hmix(&mut hh, 3000 + sig as u64);
+            if k < 40 {
+                desc.push_str(&format!("unreg_signal({})={} ", sig, got));
+            }
+            if got != nonempty {
+                sim::report("C05", "unregister-signal-result", &format!("op {}: unregister_signal({}) returned {} but the model has {} actions", k, sig, got, model.get(&sig).map(|v| v.len()).unwrap_or(0)), true);
+            }
+            if nonempty {
+                model.get_mut(&sig).unwrap().clear();
+                removed_sigs.insert(sig);
+                sim::count(E_REMOVALS, 1);
+            }
+            touched = sig;
+        } else {
+            touched = sigs[sim::work(nsig as u32) as usize];
+            hmix(&mut hh, 4000 + touched as u64);
+            if k < 40 {
+                desc.push_str(&format!("deliver({}) ", touched));
+            }
+        }
+        // after every operation: the touched signal and one other behave like the model
+        let other = sigs[sim::work(nsig as u32) as usize];
+        for s in [touched, other] {
+            ran().clear();
+            let d = deliver(s, k as u64);
+            let want: Vec<usize> = model.get(&s).cloned().unwrap_or_default();
+            if *ran() != want {
+                sim::report(
+                    "C05",
+                    "delivery-differs-from-model",
+                    &format!("after op {} a delivery of signal {} ran actions {:?}; the reference model says {:?} (taken over: {})", k, s, ran(), want, taken.contains(&s)),
+                    true,
+                );
+            }
+            if removed_sigs.contains(&s) && nsig >= 2 {
+                removal_then_delivery = true;
+            }
+            if taken.contains(&s) && !matches!(d, sim::Disposition::Handler(_)) {
+                sim::report("C05", "handler-uninstalled", &format!("after op {} signal {} (taken over earlier) no longer has the library's handler: {:?}", k, s, d), true);
+            }
+        }
+        // kernel-visible disposition of every signal
+        for s in 1..=64 {
+            let (h, fl) = get_disposition(s);
+            if taken.contains(&s) {
+                match lib_handler {
+                    None => lib_handler = Some(h),
+                    Some(l) => {
+                        if h != l {
+                            sim::report("C05", "disposition-changed", &format!("after op {} signal {} has handler {:#x}, the library's handler is {:#x}", k, s, h, l), true);
+                        }
+                    }
+                }
+                if fl & libc::SA_RESTART == 0 || fl & libc::SA_SIGINFO == 0 {
+                    sim::report("C05", "disposition-flags", &format!("after op {} signal {} has sa_flags {:#x}: SA_RESTART|SA_SIGINFO expected", k, s, fl), true);
+                }
+            } else if (h, fl) != initial[s as usize - 1] {
+                sim::report("C05", "untouched-signal-changed", &format!("after op {} the disposition of signal {} which was never registered changed to ({:#x},{:#x})", k, s, h, fl), true);
+            }
+        }
+    }
+    sim::note(&desc);
+    sim::sig_mix(hh);
+    if removal_then_delivery {
+        sim::mark_nontrivial();
+    }
+    sim::finish_ok()
+}
+
+// ---------------------------------------------------------------------------------------------
+// C12
+
+trait OutSig {
+    fn sig(&self) -> i32;
+}
+impl OutSig for libc::c_int {
+    fn sig(&self) -> i32 {
+        *self
+    }
+}
+impl OutSig for libc::siginfo_t {
+    fn sig(&self) -> i32 {
+        self.si_signo
+    }
+}
+impl OutSig for signal_hook::iterator::exfiltrator::origin::Origin {
+    fn sig(&self) -> i32 {
+        self.signal
+    }
+}
+
+static CW_DROPS: AtomicUsize = AtomicUsize::new(0);
+static CW_DEPTH: AtomicUsize = AtomicUsize::new(0);
+
+#[derive(Debug)]
+struct CanaryW {
+    fd: RawFd,
+}
+impl AsRawFd for CanaryW {
+    fn as_raw_fd(&self) -> RawFd {
+        self.fd
+    }
+}
+impl Drop for CanaryW {
+    fn drop(&mut self) {
+        CW_DROPS.fetch_add(1, Ordering::SeqCst);
+        CW_DEPTH.store(sim::handler_depth() as usize, Ordering::SeqCst);
+        unsafe { libc::close(self.fd) };
+    }
+}
+
+const C12_VALID: [i32; 9] = [libc::SIGUSR1, libc::SIGUSR2, libc::SIGURG, libc::SIGWINCH, libc::SIGHUP, libc::SIGTERM, libc::SIGALRM, 34, 40];
+const C12_FORBIDDEN: [i32; 5] = [libc::SIGKILL, libc::SIGSTOP, libc::SIGILL, libc::SIGFPE, libc::SIGSEGV];
+const C12_NEG: [i32; 3] = [-1, -7, i32::MIN];
+const C12_BIG: [i32; 4] = [128, 129, 200, i32::MAX];
+const C12_OSREJ: [i32; 6] = [0, 32, 33, 65, 100, 127];
+
+#[derive(Clone, Copy, PartialEq, Debug)]
+enum Expect {
+    Ok,
+    Err,
+    Panic,
+}
+
+fn c12_draw_signal() -> (i32, Expect) {
+    match sim::work(100) {
+        0..=59 => (C12_VALID[sim::work(C12_VALID.len() as u32) as usize], Expect::Ok),
+        60..=69 => (C12_FORBIDDEN[sim::work(5) as usize], Expect::Panic),
+        70..=77 => (C12_NEG[sim::work(3) as usize], Expect::Panic),
+        78..=85 => (C12_BIG[sim::work(4) as usize], Expect::Panic),
+        _ => (C12_OSREJ[sim::work(6) as usize], Expect::Err),
+    }
+}
+
+struct C12State<E: Exfiltrator> {
+    inst: Option<SignalDelivery<UnixStream, E>>,
+    plain: Option<SignalsInfo<E>>,
+    handles: Vec<Handle>,
+    watched: BTreeSet<i32>,
+    probe: RawFd,
+    wfd: RawFd,
+    drops_before: usize,
+    witness: BTreeMap<i32, Arc<AtomicBool>>,
+    ever_watched: BTreeSet<i32>,
+}
+
+fn witness_for<E: Exfiltrator>(st: &mut C12State<E>, sig: i32) {
+    if !st.witness.contains_key(&sig) && C12_VALID.contains(&sig) {
+        let f = Arc::new(AtomicBool::new(false));
+        signal_hook::flag::register(sig, Arc::clone(&f)).expect("witness flag registration");
+        st.witness.insert(sig, f);
+    }
+}
+
+fn c12_check_delivery<E: Exfiltrator>(st: &mut C12State<E>, sig: i32, k: usize, ctx: &str)
+where
+    E::Output: OutSig,
+{
+    witness_for(st, sig);
+    let f = st.witness[&sig].clone();
+    f.store(false, Ordering::SeqCst);
+    drain_fd(st.probe);
+    deliver(sig, k as u64);
+    if !f.load(Ordering::SeqCst) {
+        sim::report("C12", "witness-not-run", &format!("op {} ({}): an independent flag action on signal {} did not run: the process-wide registry is damaged", k, ctx, sig), true);
+    }
+    let expect_watched = st.watched.contains(&sig);
+    let got: Option<Vec<i32>> = if let Some(i) = st.inst.as_mut() {
+        Some(i.pending().map(|o| o.sig()).collect())
+    } else if let Some(p) = st.plain.as_mut() {
+        Some(p.pending().map(|o| o.sig()).collect())
+    } else {
+        None
+    };
+    if let Some(g) = got {
+        let want: Vec<i32> = if expect_watched { vec![sig] } else { vec![] };
+        if g != want {
+            sim::report("C12", "instance-differs-from-model", &format!("op {} ({}): after one delivery of signal {} the instance reported {:?}; the reference model (watched {:?}) says {:?}", k, ctx, sig, g, st.watched, want), true);
+        }
+    }
+}
+
+/// After the instance and every handle are gone: registrations removed, pipe closed, nothing is
+/// written any more, other actions on the same signals still run.
+fn c12_cleanup_check<E: Exfiltrator>(st: &mut C12State<E>, k: usize)
+where
+    E::Output: OutSig,
+{
+    if st.probe < 0 {
+        return;
+    }
+    sim::count(E_FD_REUSE_PROBE, 1);
+    let drops = CW_DROPS.load(Ordering::SeqCst) - st.drops_before;
+    if drops != 1 {
+        sim::report("C12", "write-end-not-released-once", &format!("op {}: after the instance and all its handles were dropped its write end has been released {} times", k, drops), true);
+    }
+    if CW_DEPTH.load(Ordering::SeqCst) != 0 {
+        sim::report("C12", "write-end-released-in-handler", "the write end was released inside a signal handler", true);
+    }
+    if fd_valid(st.wfd) {
+        sim::report("C12", "pipe-not-closed", &format!("op {}: descriptor {} of the instance's write end is still open after everything was dropped", k, st.wfd), true);
+    }
+    let sigs: Vec<i32> = st.ever_watched.iter().copied().collect();
+    for s in sigs {
+        drain_fd(st.probe);
+        st.watched.clear();
+        c12_check_delivery(st, s, k, "after drop");
+        let n = drain_fd(st.probe);
+        if n != 0 {
+            sim::report("C12", "registration-leaked", &format!("op {}: a delivery of signal {} after the instance and all handles were dropped still wrote {} byte(s) to its pipe: a registration was left behind", k, s, n), true);
+        }
+    }
+    unsafe { libc::close(st.probe) };
+    st.probe = -1;
+}
+
+fn c12_generic<E>(spec: &RunSpec, exname: &str) -> !
+where
+    E: Exfiltrator + Default,
+    E::Output: OutSig,
+{
+    let mut st: C12State<E> = C12State { inst: None, plain: None, handles: Vec::new(), watched: BTreeSet::new(), probe: -1, wfd: -1, drops_before: 0, witness: BTreeMap::new(), ever_watched: BTreeSet::new() };
+    let nops = 3 + sim::work(if spec.tier == Tier::Thorough { 40 } else { 22 }) as usize;
+    let mut hh = 0u64;
+    let mut desc = format!("{} {} ops: ", exname, nops);
+    let mut rejected_seen = false;
+    let mut accepted_after_reject = false;
+    for k in 0..nops {
+        shm::get().progress = k as u32;
+        sim::count(E_HIST_OPS, 1);
+        let alive = st.inst.is_some() || st.plain.is_some();
+        let r = sim::work(100);
+        if !alive && st.handles.is_empty() {
+            // constructor
+            c12_cleanup_check(&mut st, k);
+            let n = sim::work(4) as usize;
+            let mut list = Vec::new();
+            let mut expect = Expect::Ok;
+            for _ in 0..n {
+                let (s, e) = c12_draw_signal();
+                list.push(s);
+                if expect == Expect::Ok && e != Expect::Ok {
+                    expect = e;
+                }
+            }
+            let use_pipe = sim::work(4) != 0;
+            hmix(&mut hh, 100 + list.iter().map(|s| *s as u64 & 0xff).sum::<u64>() + use_pipe as u64);
+            desc.push_str(&format!("new{}({:?})", if use_pipe { "_pipe" } else { "" }, list));
+            for s in list.iter() {
+                witness_for(&mut st, *s);
+            }
+            let mut valid_listed: Vec<i32> = list.iter().copied().filter(|s| C12_VALID.contains(s)).collect();
+            valid_listed.dedup();
+            let res: Result<Result<(), std::io::Error>, ()>;
+            if use_pipe {
+                let (rd, wr) = UnixStream::pair().expect("socketpair");
+                st.probe = unsafe { libc::dup(rd.as_raw_fd()) };
+                st.wfd = wr.into_raw_fd();
+                st.drops_before = CW_DROPS.load(Ordering::SeqCst);
+                let cw = CanaryW { fd: st.wfd };
+                let r = catch_unwind(AssertUnwindSafe(|| SignalDelivery::with_pipe(rd, cw, E::default(), list.iter())));
+                res = match r {
+                    Ok(Ok(i)) => {
+                        st.inst = Some(i);
+                        Ok(Ok(()))
+                    }
+                    Ok(Err(e)) => Ok(Err(e)),
+                    Err(_) => Err(()),
+                };
+            } else {
+                let r = catch_unwind(AssertUnwindSafe(|| SignalsInfo::<E>::new(list.iter())));
+                res = match r {
+                    Ok(Ok(i)) => {
+                        st.plain = Some(i);
+                        Ok(Ok(()))
+                    }
+                    Ok(Err(e)) => Ok(Err(e)),
+                    Err(_) => Err(()),
+                };
+            }
+            let got = match &res {
+                Ok(Ok(())) => Expect::Ok,
+                Ok(Err(_)) => Expect::Err,
+                Err(()) => Expect::Panic,
+            };
+            desc.push_str(&format!("={:?} ", got));
+            if got != expect {
+                sim::report("C12", "constructor-outcome", &format!("op {}: constructing an instance for {:?} ended with {:?}, documented behaviour is {:?} (last panic: {})", k, list, got, expect, panic_msg()), true);
+            }
+            if got == Expect::Ok {
+                st.watched = list.iter().copied().collect();
+                st.ever_watched.extend(list.iter().copied());
+                if rejected_seen {
+                    accepted_after_reject = true;
+                }
+            } else {
+                sim::count(E_HIST_REJECTED, 1);
+                rejected_seen = true;
+                // a failed constructor leaves nothing registered
+                st.watched.clear();
+                for s in valid_listed.iter() {
+                    st.ever_watched.insert(*s);
+                }
+                if use_pipe {
+                    c12_cleanup_check(&mut st, k);
+                } else {
+                    for s in valid_listed.iter() {
+                        c12_check_delivery(&mut st, *s, k, "after failed constructor");
+                    }
+                }
+                st.ever_watched.clear();
+            }
+        } else if r < 40 && (alive || !st.handles.is_empty()) {
+            // add_signal through the instance or through a handle clone
+            let (mut s, mut e) = c12_draw_signal();
+            if e == Expect::Ok && sim::work(3) == 0 && !st.watched.is_empty() {
+                let v: Vec<i32> = st.watched.iter().copied().collect();
+                s = v[sim::work(v.len() as u32) as usize];
+                e = Expect::Ok;
+            }
+            witness_for(&mut st, s);
+            let via_handle = !st.handles.is_empty() && (!alive || sim::work(2) == 0);
+            hmix(&mut hh, 200 + (s as u64 & 0xffff) * 2 + via_handle as u64);
+            desc.push_str(&format!("add{}({})", if via_handle { "_h" } else { "" }, s));
+            let r = catch_unwind(AssertUnwindSafe(|| {
+                if via_handle {
+                    let i = sim::work(st.handles.len() as u32) as usize;
+                    st.handles[i].add_signal(s)
+                } else if let Some(i) = st.inst.as_ref() {
+                    i.handle().add_signal(s)
+                } else {
+                    st.plain.as_ref().unwrap().add_signal(s)
+                }
+            }));
+            let got = match &r {
+                Ok(Ok(())) => Expect::Ok,
+                Ok(Err(_)) => Expect::Err,
+                Err(_) => Expect::Panic,
+            };
+            desc.push_str(&format!("={:?} ", got));
+            if got != e {
+                sim::report(
+                    "C12",
+                    "add-signal-outcome",
+                    &format!("op {}: add_signal({}) ended with {:?}, documented behaviour is {:?} (watched {:?}; last panic: {}; history: {})", k, s, got, e, st.watched, panic_msg(), desc),
+                    true,
+                );
+            }
+            if got == Expect::Ok {
+                st.watched.insert(s);
+                st.ever_watched.insert(s);
+                if rejected_seen {
+                    accepted_after_reject = true;
+                }
+            } else {
+                sim::count(E_HIST_REJECTED, 1);
+                rejected_seen = true;
+            }
+            // whatever happened: everything watched is still delivered, the rejected one is not
+            let all: Vec<i32> = st.watched.iter().copied().collect();
+            for w_ in all {
+                c12_check_delivery(&mut st, w_, k, "after add_signal");
+            }
+            if got != Expect::Ok && C12_VALID.contains(&s) == false && (1..=64).contains(&s) && !C12_FORBIDDEN.contains(&s) {
+                // nothing to deliver for numbers the OS rejects
+            }
+        } else if r < 55 && alive {
+            let h = if let Some(i) = st.inst.as_ref() { i.handle() } else { st.plain.as_ref().unwrap().handle() };
+            st.handles.push(h);
+            hmix(&mut hh, 300);
+            desc.push_str("handle ");
+        } else if r < 62 && !st.handles.is_empty() {
+            let i = sim::work(st.handles.len() as u32) as usize;
+            let c = st.handles[i].clone();
+            st.handles.push(c);
+            hmix(&mut hh, 301);
+            desc.push_str("clone ");
+        } else if r < 72 && !st.handles.is_empty() {
+            let i = sim::work(st.handles.len() as u32) as usize;
+            let h = st.handles.remove(i);
+            hmix(&mut hh, 302);
+            desc.push_str("drop_handle ");
+            if catch_unwind(AssertUnwindSafe(move || drop(h))).is_err() {
+                sim::report("C12", "drop-panicked", &format!("op {}: dropping a handle panicked: {} (history: {})", k, panic_msg(), desc), true);
+            }
+            if rejected_seen {
+                accepted_after_reject = true;
+            }
+        } else if r < 82 && alive {
+            hmix(&mut hh, 303);
+            desc.push_str("drop_instance ");
+            let i = st.inst.take();
+            let p = st.plain.take();
+            if catch_unwind(AssertUnwindSafe(move || {
+                drop(i);
+                drop(p);
+            }))
+            .is_err()
+            {
+                sim::report("C12", "drop-panicked", &format!("op {}: dropping the instance panicked: {} (history: {})", k, panic_msg(), desc), true);
+            }
+            if rejected_seen {
+                accepted_after_reject = true;
+            }
+        } else {
+            // deliver something watched or unwatched
+            let s = if !st.watched.is_empty() && sim::work(3) != 0 {
+                let v: Vec<i32> = st.watched.iter().copied().collect();
+                v[sim::work(v.len() as u32) as usize]
+            } else {
+                C12_VALID[sim::work(C12_VALID.len() as u32) as usize]
+            };
+            hmix(&mut hh, 400 + s as u64);
+            desc.push_str(&format!("deliver({}) ", s));
+            if alive {
+                c12_check_delivery(&mut st, s, k, "deliver");
+            } else {
+                witness_for(&mut st, s);
+                deliver(s, k as u64);
+            }
+        }
+        if st.inst.is_none() && st.plain.is_none() && st.handles.is_empty() {
+            c12_cleanup_check(&mut st, k);
+            st.watched.clear();
+            st.ever_watched.clear();
+        }
+    }
+    // end: drop everything, cleanup must hold
+    let i = st.inst.take();
+    let p = st.plain.take();
+    let hs = std::mem::take(&mut st.handles);
+    if catch_unwind(AssertUnwindSafe(move || {
+        drop(hs);
+        drop(i);
+        drop(p);
+    }))
+    .is_err()
+    {
+        sim::report("C12", "drop-panicked", &format!("final drop of the instance/handles panicked: {} (history: {})", panic_msg(), desc), true);
+    }
+    c12_cleanup_check(&mut st, nops);
+    sim::note(&desc);
+    sim::sig_mix(hh);
+    if rejected_seen && accepted_after_reject {
+        sim::mark_nontrivial();
+    }
+    sim::finish_ok()
+}
+
+fn c12(spec: &RunSpec) -> ! {
+    shm::put_str(&mut shm::get().abort_prop, "C12");
+    start(spec);
+    match sim::work(3) {
+        0 => c12_generic::<SignalOnly>(spec, "SignalOnly"),
+        1 => c12_generic::<WithRawSiginfo>(spec, "WithRawSiginfo"),
+        _ => c12_generic::<WithOrigin>(spec, "WithOrigin"),
+    }
+}
+
+// ---------------------------------------------------------------------------------------------
+// C13
+
+#[derive(Clone, Copy, Debug, PartialEq)]
+enum FdKind {
+    Pipe,
+    Stream,
+    Dgram,
+}
+
+fn make_pair(kind: FdKind, small: bool) -> (RawFd, RawFd) {
+    match kind {
+        FdKind::Pipe => {
+            let mut f = [0i32; 2];
+            unsafe {
+                libc::pipe(f.as_mut_ptr());
+                if small {
+                    libc::fcntl(f[1], libc::F_SETPIPE_SZ, 4096);
+                }
+            }
+            (f[0], f[1])
+        }
+        FdKind::Stream => {
+            let (a, b) = UnixStream::pair().expect("pair");
+            (a.into_raw_fd(), b.into_raw_fd())
+        }
+        FdKind::Dgram => {
+            let (a, b) = UnixDatagram::pair().expect("pair");
+            (a.into_raw_fd(), b.into_raw_fd())
+        }
+    }
+}
+
+fn set_blocking(fd: RawFd, blocking: bool) {
+    unsafe {
+        let fl = libc::fcntl(fd, libc::F_GETFL, 0);
+        libc::fcntl(fd, libc::F_SETFL, if blocking { fl & !libc::O_NONBLOCK } else { fl | libc::O_NONBLOCK });
+    }
+}
+
+/// Count what is readable: bytes for pipe/stream, (datagrams, bytes) for dgram.
+fn read_all(kind: FdKind, rd: RawFd) -> (usize, usize) {
+    let mut units = 0;
+    let mut bytes = 0;
+    let mut buf = [0u8; 65536];
+    loop {
+        let mut p = libc::pollfd { fd: rd, events: libc::POLLIN, revents: 0 };
+        if unsafe { libc::poll(&mut p, 1, 0) } <= 0 || p.revents & libc::POLLIN == 0 {
+            break;
+        }
+        let r = unsafe { libc::read(rd, buf.as_mut_ptr() as *mut _, if kind == FdKind::Dgram { 16 } else { buf.len() }) };
+        if r < 0 {
+            break;
+        }
+        if r == 0 && kind != FdKind::Dgram {
+            break;
+        }
+        units += 1;
+        bytes += r as usize;
+        if units > 10_000_000 {
+            break;
+        }
+    }
+    (units, bytes)
+}
+
+#[derive(Debug)]
+struct FdW(RawFd);
+impl AsRawFd for FdW {
+    fn as_raw_fd(&self) -> RawFd {
+        self.0
+    }
+}
+impl Drop for FdW {
+    fn drop(&mut self) {
+        unsafe { libc::close(self.0) };
+    }
+}
+
+fn c13(spec: &RunSpec) -> ! {
+    shm::put_str(&mut shm::get().hang_prop, "C13");
+    start(spec);
+    let sweep = spec.run < spec.prop.sweep_runs;
+    let mut r = spec.run;
+    let pick = |r: &mut u64, n: u64| -> u64 {
+        if sweep {
+            let v = *r % n;
+            *r /= n;
+            v
+        } else {
+            sim::work(n as u32) as u64
+        }
+    };
+    let second = pick(&mut r, 2) == 1;
+    let ending = pick(&mut r, 4); // 0 unregister, 1 forbidden, 2 invalid signal, 3 closed fd
+    let entry = pick(&mut r, 3); // 0 pipe::register, 1 register_raw, 2 iterator
+    let burst = [1usize, 2, 7, 300][pick(&mut r, 4) as usize];
+    let fill = pick(&mut r, 3); // 0 empty, 1 one short of full, 2 full
+    let blocking = pick(&mut r, 2) == 0;
+    let kind = [FdKind::Pipe, FdKind::Stream, FdKind::Dgram][pick(&mut r, 3) as usize];
+    // the iterator back end requires a descriptor that supports send(2): no plain pipes there
+    let kind = if entry == 2 && kind == FdKind::Pipe { FdKind::Stream } else { kind };
+    let sig = libc::SIGUSR1;
+    let other_sig = libc::SIGUSR2;
+    sim::note(&format!(
+        "kind {:?} blocking {} fill {} burst {} entry {} ending {} second-pipe {}",
+        kind,
+        blocking,
+        ["empty", "one-short-of-full", "full"][fill as usize],
+        burst,
+        ["pipe::register", "pipe::register_raw", "iterator wake"][entry as usize],
+        ["unregister", "forbidden-signal", "invalid-signal", "closed-descriptor"][ending as usize],
+        second
+    ));
+    sim::sig_mix(spec.run.wrapping_mul(0x9E3779B97F4A7C15) ^ (kind as u64) << 7 ^ fill << 3 ^ ending);
+    // capacity in 1-byte units of an empty descriptor of this kind (measured, never assumed)
+    let cap = {
+        let (a, b) = make_pair(kind, true);
+        set_blocking(b, false);
+        let n = fill_fd(b);
+        unsafe {
+            libc::close(a);
+            libc::close(b);
+        }
+        n
+    };
+    let cap2 = {
+        let (a, b) = make_pair(FdKind::Stream, false);
+        set_blocking(b, false);
+        let n = fill_fd(b);
+        unsafe {
+            libc::close(a);
+            libc::close(b);
+        }
+        n
+    };
+    let (rd, wr) = make_pair(kind, true);
+    // fill level; `present` = units inside before the burst
+    let mut present = 0usize;
+    if fill > 0 {
+        set_blocking(wr, false);
+        present = fill_fd(wr);
+        if fill == 1 {
+            // make room for exactly one more unit
+            if kind == FdKind::Pipe {
+                // a pipe slot is only reusable once it is completely consumed: drain the page and
+                // refill all but one byte
+                let mut page = vec![0u8; 8192];
+                let got = unsafe { libc::read(rd, page.as_mut_ptr() as *mut _, page.len()) }.max(0) as usize;
+                let back = unsafe { libc::write(wr, page.as_ptr() as *const _, got - 1) }.max(0) as usize;
+                present = present - got + back;
+            } else {
+                let mut b = [0u8; 16];
+                unsafe { libc::read(rd, b.as_mut_ptr() as *mut _, if kind == FdKind::Dgram { 16 } else { 1 }) };
+                present -= 1;
+            }
+        }
+    }
+    set_blocking(wr, blocking);
+    // second, independent pipe on the same signal (must keep working whatever happens to the first)
+    let (rd2, id2) = if second {
+        let (a, b) = UnixStream::pair().expect("pair");
+        let id = signal_hook::low_level::pipe::register(sig, b).expect("second pipe");
+        (a.into_raw_fd(), Some(id))
+    } else {
+        (-1, None)
+    };
+
+    // ---- registration (or rejected registration)
+    let target_sig = match ending {
+        1 => libc::SIGKILL,
+        2 => 1000,
+        _ => sig,
+    };
+    let mut wr_for_reg = wr;
+    if ending == 3 {
+        // hand over a descriptor number that is already closed
+        unsafe { libc::close(wr) };
+        wr_for_reg = wr;
+    }
+    let mut inst: Option<SignalDelivery<UnixStream, SignalOnly>> = None;
+    let before: Vec<(usize, i32)> = (1..=64).map(get_disposition).collect();
+    let reg = catch_unwind(AssertUnwindSafe(|| -> Result<Option<SigId>, std::io::Error> {
+        match entry {
+            0 => {
+                let owned = FdOwner(wr_for_reg);
+                signal_hook::low_level::pipe::register(target_sig, owned).map(Some)
+            }
+            1 => signal_hook::low_level::pipe::register_raw(target_sig, wr_for_reg).map(Some),
+            _ => {
+                let (r_, _w) = UnixStream::pair()?;
+                let d = SignalDelivery::with_pipe(r_, FdW(wr_for_reg), SignalOnly::default(), [target_sig].iter())?;
+                inst = Some(d);
+                Ok(None)
+            }
+        }
+    }));
+    let rejected = ending != 0;
+    let outcome = match &reg {
+        Ok(Ok(_)) => "ok",
+        Ok(Err(_)) => "err",
+        Err(_) => "panic",
+    };
+    if rejected {
+        sim::count(E_HIST_REJECTED, 1);
+        sim::mark_nontrivial();
+        let want = match ending {
+            1 => "panic",
+            2 => {
+                if entry == 2 {
+                    "panic"
+                } else {
+                    "err"
+                }
+            }
+            _ => {
+                if entry == 2 {
+                    "ok"
+                } else {
+                    "err"
+                }
+            }
+        };
+        // a closed descriptor handed to the iterator back end is not inspected at registration
+        if outcome != want {
+            sim::report("C13", "rejection-outcome", &format!("registration ended with {}, expected {} (last panic: {})", outcome, want, panic_msg()), true);
+        }
+        if !(ending == 3 && entry == 2) {
+            // the descriptor handed over has been closed exactly once and nothing changed
+            if ending != 3 && fd_valid(wr) {
+                sim::report("C13", "descriptor-leaked-on-rejection", &format!("registration was rejected ({}) but descriptor {} handed over is still open", outcome, wr), true);
+            }
+            let after: Vec<(usize, i32)> = (1..=64).map(get_disposition).collect();
+            if ending != 0 && after != before && ending != 3 {
+                sim::report("C13", "dispositions-changed-on-rejection", "a rejected self-pipe registration changed signal dispositions", true);
+            }
+        }
+        // descriptor-number reuse probe: the number is free again; take it and make sure nothing
+        // writes to it or closes it later
+        drop(inst.take());
+        let (p0, p1) = make_pair(FdKind::Pipe, false);
+        sim::count(E_FD_REUSE_PROBE, 1);
+        let _keep = signal_hook::flag::register(other_sig, Arc::new(AtomicBool::new(false)));
+        for k in 0..burst.min(20) {
+            deliver(sig, k as u64);
+            deliver(other_sig, k as u64);
+        }
+        if let Ok(idk) = _keep {
+            signal_hook::low_level::unregister(idk);
+        }
+        for f in [p0, p1] {
+            if !fd_valid(f) {
+                sim::report("C13", "foreign-descriptor-closed", &format!("after the rejected registration a later close hit descriptor number {} which now belongs to somebody else", f), true);
+            }
+        }
+        if read_all(FdKind::Pipe, p0).1 != 0 {
+            sim::report("C13", "write-after-release", "bytes were written to a descriptor number after it had been released", true);
+        }
+        if second {
+            let (u, _) = read_all(FdKind::Stream, rd2);
+            if u == 0 {
+                sim::report("C13", "other-pipe-silenced", "the second pipe registered on the same signal received nothing", true);
+            }
+        }
+        let _ = id2;
+        sim::finish_ok()
+    }
+    let id = match reg {
+        Ok(Ok(id)) => id,
+        Ok(Err(e)) => sim::violation("C13", "registration-failed", &format!("registration of a valid descriptor failed: {}", e)),
+        Err(_) => sim::violation("C13", "registration-panicked", &format!("registration of a valid descriptor panicked: {}", panic_msg())),
+    };
+    // the probe datagram / flags
+    if entry < 2 && kind == FdKind::Pipe {
+        let fl = unsafe { libc::fcntl(wr, libc::F_GETFL, 0) };
+        if fl & libc::O_NONBLOCK == 0 {
+            sim::report("C13", "pipe-left-blocking", "a pipe write end registered for wake-ups was left in blocking mode", true);
+        }
+    }
+    // what is readable before the burst (dgram: the documented empty probe datagram may be there)
+    let (pre_units, pre_bytes) = if fill == 0 { read_all(kind, rd) } else { (0, 0) };
+    if kind != FdKind::Dgram && pre_bytes != 0 {
+        sim::report("C13", "spurious-bytes", &format!("{} byte(s) appeared in the pipe at registration", pre_bytes), true);
+    }
+    if pre_units > 1 || pre_bytes != 0 {
+        sim::report("C13", "spurious-bytes", &format!("{} datagram(s) with {} byte(s) appeared at registration", pre_units, pre_bytes), true);
+    }
+    // room before the burst
+    let room: Option<usize> = match fill {
+        0 => None,
+        1 => Some(1),
+        _ => Some(0),
+    };
+    if fill > 0 {
+        sim::mark_nontrivial();
+    }
+    let own0 = sim::own_steps();
+    for k in 0..burst {
+        shm::get().progress = k as u32;
+        deliver(sig, k as u64);
+    }
+    let _ = own0;
+    if fill >= 1 {
+        sim::count(E_PIPE_FULL, burst as u64);
+    }
+    // read back
+    let (units, bytes) = read_all(kind, rd);
+    let got = if kind == FdKind::Dgram { units } else { bytes };
+    match room {
+        None => {
+            // empty at the start: exactly one byte per delivery while there is room
+            let expect = burst.min(cap);
+            if got != expect || bytes != expect {
+                sim::report("C13", "bytes-vs-deliveries", &format!("{} deliveries into an empty {:?} (capacity {} one-byte units) produced {} unit(s) / {} bytes for the reader; {} expected", burst, kind, cap, got, bytes, expect), true);
+            }
+        }
+        Some(room) => {
+            // (nearly) full: exactly what still fitted was added, nothing more, nothing lost
+            let expect = present + room.min(burst);
+            if got != expect {
+                sim::report("C13", "bytes-vs-deliveries", &format!("{:?} held {} unit(s) with room for {} more; after {} deliveries the reader finds {} unit(s), expected {}", kind, present, room, burst, got, expect), true);
+            }
+        }
+    }
+    // after draining: one more delivery produces exactly one byte
+    deliver(sig, 999_999);
+    let (u2, b2) = read_all(kind, rd);
+    if !(u2 == 1 && b2 == 1) && !(kind != FdKind::Dgram && b2 == 1) {
+        sim::report("C13", "bytes-vs-deliveries", &format!("one delivery after draining produced {} unit(s) / {} byte(s)", u2, b2), true);
+    }
+    if second {
+        let (_, b) = read_all(FdKind::Stream, rd2);
+        if b != (burst + 1).min(cap2) {
+            sim::report("C13", "other-pipe-disturbed", &format!("the second pipe on the same signal (capacity {}) saw {} bytes for {} deliveries", cap2, b, burst + 1), true);
+        }
+    }
+    // ---- removal: descriptor closed exactly once, never written again
+    match (id, inst.take()) {
+        (Some(id), _) => {
+            if !signal_hook::low_level::unregister(id) {
+                sim::report("C13", "unregister-failed", "unregister of the self-pipe action returned false", true);
+            }
+        }
+        (None, Some(d)) => drop(d),
+        _ => {}
+    }
+    if fd_valid(wr) {
+        sim::report("C13", "descriptor-not-closed", &format!("descriptor {} is still open after its action was removed", wr), true);
+    }
+    let (p0, p1) = make_pair(FdKind::Pipe, false);
+    sim::count(E_FD_REUSE_PROBE, 1);
+    let reused = p0 == wr || p1 == wr;
+    for k in 0..5 {
+        deliver(sig, k);
+    }
+    // remove something else too: a doubled close would hit the reused number
+    if let Some(i2) = id2 {
+        signal_hook::low_level::unregister(i2);
+    }
+    for f in [p0, p1] {
+        if !fd_valid(f) {
+            sim::report("C13", "foreign-descriptor-closed", &format!("descriptor number {} (reused: {}) was closed by the library after it had been released", f, reused), true);
+        }
+    }
+    if read_all(FdKind::Pipe, p0).1 != 0 || read_all(kind, rd).1 != 0 {
+        sim::report("C13", "write-after-release", "a delivery after removal still wrote to the pipe (or to the descriptor number that was reused)", true);
+    }
+    sim::finish_ok()
+}
+
+/// A descriptor owner handing its number over through IntoRawFd.
+struct FdOwner(RawFd);
+impl IntoRawFd for FdOwner {
+    fn into_raw_fd(self) -> RawFd {
+        self.0
+    }
+}
+
+// ---------------------------------------------------------------------------------------------
+// C14
+
+fn c14_signal(i: u64) -> i32 {
+    match i {
+        0..=132 => i as i32 - 2,
+        133 => i32::MIN,
+        _ => i32::MAX,
+    }
+}
+
+fn os_accepts(sig: i32) -> bool {
+    if sig <= 0 || sig > 64 {
+        return false;
+    }
+    unsafe {
+        let mut cur: libc::sigaction = std::mem::zeroed();
+        if libc::sigaction(sig, std::ptr::null(), &mut cur) != 0 {
+            return false;
+        }
+        libc::sigaction(sig, &cur, std::ptr::null_mut()) == 0
+    }
+}
+
+const ENTRY_NAMES: [&str; 16] = [
+    "registry::register",
+    "registry::register_sigaction",
+    "registry::register_signal_unchecked",
+    "registry::register_unchecked",
+    "flag::register",
+    "flag::register_usize",
+    "flag::register_conditional_shutdown",
+    "flag::register_conditional_default",
+    "pipe::register",
+    "pipe::register_raw",
+    "Signals::new",
+    "Signals::add_signal",
+    "SignalsInfo<WithRawSiginfo>::new",
+    "SignalsInfo<WithRawSiginfo>::add_signal",
+    "SignalsInfo<WithOrigin>::new",
+    "SignalsInfo<WithOrigin>::add_signal",
+];
+
+fn c14(spec: &RunSpec) -> ! {
+    shm::put_str(&mut shm::get().abort_prop, "C14");
+    shm::put_str(&mut shm::get().exit_prop, "C14");
+    start(spec);
+    let sweep = spec.run < spec.prop.sweep_runs;
+    let (entry, sig, warm) = if sweep {
+        let mut r = spec.run;
+        let warm = r % 2 == 1;
+        r /= 2;
+        let si = r % 135;
+        r /= 135;
+        (r as usize % 16, c14_signal(si), warm)
+    } else {
+        (sim::work(16) as usize, c14_signal(sim::work(135) as u64), sim::work(2) == 1)
+    };
+    sim::note(&format!("{}({}) {}", ENTRY_NAMES[entry], sig, if warm { "after three other signals were registered" } else { "in a fresh process" }));
+    sim::sig_mix(((entry as u64) << 20) ^ ((sig as i64 as u64) << 1) ^ warm as u64);
+    sim::count(E_HIST_OPS, 1);
+    // warm-up: three other signals with tagged actions
+    let warm_sigs = [libc::SIGHUP, libc::SIGWINCH, libc::SIGURG];
+    if warm {
+        for (i, s) in warm_sigs.iter().enumerate() {
+            unsafe { signal_hook_registry::register(*s, move || hist_action(i)).expect("warm-up") };
+        }
+    }
+    let forbidden = C12_FORBIDDEN.contains(&sig);
+    let accepted_by_os = os_accepts(sig);
+    let unchecked = entry == 2 || entry == 3;
+    let iterator = entry >= 10;
+    let want = if unchecked {
+        if accepted_by_os {
+            Expect::Ok
+        } else {
+            Expect::Err
+        }
+    } else if forbidden {
+        Expect::Panic
+    } else if iterator && (sig < 0 || sig >= 128) {
+        Expect::Panic
+    } else if accepted_by_os {
+        if entry == 7 && signal_hook::low_level::signal_name(sig).is_none() {
+            Expect::Err
+        } else {
+            Expect::Ok
+        }
+    } else {
+        Expect::Err
+    };
+    let before: Vec<(usize, i32)> = (1..=64).map(get_disposition).collect();
+    let flag = Arc::new(AtomicBool::new(false));
+    let uflag = Arc::new(AtomicUsize::new(0));
+    let (prd, pwr) = make_pair(FdKind::Stream, false);
+    let mut keep_a: Option<SignalsInfo<SignalOnly>> = None;
+    let mut keep_b: Option<SignalsInfo<WithRawSiginfo>> = None;
+    let mut keep_c: Option<SignalsInfo<WithOrigin>> = None;
+    if entry == 11 {
+        keep_a = Some(SignalsInfo::<SignalOnly>::new(&[] as &[i32]).expect("empty Signals"));
+    }
+    if entry == 13 {
+        keep_b = Some(SignalsInfo::<WithRawSiginfo>::new(&[] as &[i32]).expect("empty Signals"));
+    }
+    if entry == 15 {
+        keep_c = Some(SignalsInfo::<WithOrigin>::new(&[] as &[i32]).expect("empty Signals"));
+    }
+    shm::get().expect_set = 2;
+    shm::put_str(&mut shm::get().msg, &format!("{}({})", ENTRY_NAMES[entry], sig));
+    let res = catch_unwind(AssertUnwindSafe(|| -> Result<(), std::io::Error> {
+        unsafe {
+            match entry {
+                0 => signal_hook_registry::register(sig, || hist_action(100)).map(|_| ()),
+                1 => signal_hook_registry::register_sigaction(sig, |_| hist_action(100)).map(|_| ()),
+                2 => signal_hook_registry::register_signal_unchecked(sig, || hist_action(100)).map(|_| ()),
+                3 => signal_hook_registry::register_unchecked(sig, |_| hist_action(100)).map(|_| ()),
+                4 => signal_hook::flag::register(sig, Arc::clone(&flag)).map(|_| ()),
+                5 => signal_hook::flag::register_usize(sig, Arc::clone(&uflag), 5).map(|_| ()),
+                6 => signal_hook::flag::register_conditional_shutdown(sig, 1, Arc::clone(&flag)).map(|_| ()),
+                7 => signal_hook::flag::register_conditional_default(sig, Arc::clone(&flag)).map(|_| ()),
+                8 => signal_hook::low_level::pipe::register(sig, UnixStream::from_raw_fd(pwr)).map(|_| ()),
+                9 => signal_hook::low_level::pipe::register_raw(sig, pwr).map(|_| ()),
+                10 => SignalsInfo::<SignalOnly>::new(&[sig]).map(|s| keep_a = Some(s)),
+                11 => keep_a.as_ref().unwrap().add_signal(sig),
+                12 => SignalsInfo::<WithRawSiginfo>::new(&[sig]).map(|s| keep_b = Some(s)),
+                13 => keep_b.as_ref().unwrap().add_signal(sig),
+                14 => SignalsInfo::<WithOrigin>::new(&[sig]).map(|s| keep_c = Some(s)),
+                _ => keep_c.as_ref().unwrap().add_signal(sig),
+            }
+        }
+    }));
+    shm::get().expect_set = 0;
+    let got = match &res {
+        Ok(Ok(())) => Expect::Ok,
+        Ok(Err(_)) => Expect::Err,
+        Err(_) => Expect::Panic,
+    };
+    if got != want {
+        sim::report(
+            "C14",
+            "outcome",
+            &format!("{}({}) ended with {:?}; expected {:?} (forbidden: {}, OS accepts the number: {}; last panic: {})", ENTRY_NAMES[entry], sig, got, want, forbidden, accepted_by_os, panic_msg()),
+            true,
+        );
+    }
+    if got != Expect::Ok {
+        sim::count(E_HIST_REJECTED, 1);
+        sim::mark_nontrivial();
+        // nothing changed
+        let after: Vec<(usize, i32)> = (1..=64).map(get_disposition).collect();
+        if after != before {
+            let s = (0..64).find(|i| after[*i] != before[*i]).unwrap() + 1;
+            sim::report("C14", "dispositions-changed", &format!("rejected {}({}) changed the disposition of signal {}: {:?} -> {:?}", ENTRY_NAMES[entry], sig, s, before[s - 1], after[s - 1]), true);
+        }
+        // everything captured has been released
+        if Arc::strong_count(&flag) != 1 || Arc::strong_count(&uflag) != 1 {
+            sim::report("C14", "captured-flag-leaked", &format!("rejected {}({}) kept a reference to the flag it was given (strong counts {} / {})", ENTRY_NAMES[entry], sig, Arc::strong_count(&flag), Arc::strong_count(&uflag)), true);
+        }
+        if (entry == 8 || entry == 9) && fd_valid(pwr) {
+            sim::report("C14", "descriptor-leaked", &format!("rejected {}({}) left descriptor {} open", ENTRY_NAMES[entry], sig, pwr), true);
+        }
+    }
+    // previously registered actions still run, exactly as before
+    if warm {
+        for (i, s) in warm_sigs.iter().enumerate() {
+            ran().clear();
+            deliver(*s, i as u64);
+            let mut want_ran = vec![i];
+            if got == Expect::Ok && *s == sig && entry <= 3 {
+                want_ran.push(100);
+            }
+            if *ran() != want_ran {
+                sim::report("C14", "registry-disturbed", &format!("after {}({}) = {:?} a delivery of the earlier-registered signal {} ran {:?} instead of {:?}", ENTRY_NAMES[entry], sig, got, s, ran(), want_ran), true);
+            }
+        }
+    }
+    // the library is still fully usable
+    let f2 = Arc::new(AtomicBool::new(false));
+    let usable = catch_unwind(AssertUnwindSafe(|| signal_hook::flag::register(libc::SIGUSR2, Arc::clone(&f2))));
+    match usable {
+        Ok(Ok(_)) => {
+            deliver(libc::SIGUSR2, 7);
+            if !f2.load(Ordering::SeqCst) {
+                sim::report("C14", "library-unusable", &format!("after {}({}) a fresh flag registration does not run", ENTRY_NAMES[entry], sig), true);
+            }
+        }
+        other => sim::report("C14", "library-unusable", &format!("after {}({}) a fresh valid registration failed: {:?} {}", ENTRY_NAMES[entry], sig, other.map(|r| r.map(|_| ())), panic_msg()), true),
+    }
+    for (k, alive) in [(11, keep_a.is_some()), (13, keep_b.is_some()), (15, keep_c.is_some())] {
+        if entry == k && alive && got != Expect::Ok {
+            // the instance survives the rejected addition
+            let r = catch_unwind(AssertUnwindSafe(|| match k {
+                11 => keep_a.as_ref().unwrap().add_signal(libc::SIGUSR1),
+                13 => keep_b.as_ref().unwrap().add_signal(libc::SIGUSR1),
+                _ => keep_c.as_ref().unwrap().add_signal(libc::SIGUSR1),
+            }));
+            if !matches!(r, Ok(Ok(()))) {
+                sim::report("C14", "instance-unusable-after-rejection", &format!("after the rejected {}({}) a valid add_signal on the same instance failed: {}", ENTRY_NAMES[entry], sig, panic_msg()), true);
+            }
+        }
+    }
+    shm::get().expect_set = 2;
+    let dropped = catch_unwind(AssertUnwindSafe(move || {
+        drop(keep_a);
+        drop(keep_b);
+        drop(keep_c);
+    }));
+    shm::get().expect_set = 0;
+    if dropped.is_err() {
+        sim::report("C14", "drop-panicked", &format!("dropping the instance after {}({}) panicked: {}", ENTRY_NAMES[entry], sig, panic_msg()), true);
+    }
+    unsafe { libc::close(prd) };
+    sim::finish_ok()
+}
+
+// ---------------------------------------------------------------------------------------------
+// C15
+
+extern "C" fn atexit_marker() {
+    if shm::is_set() {
+        shm::get().atexit_ran = 1;
+    }
+}
+
+fn c15(spec: &RunSpec) -> ! {
+    shm::put_str(&mut shm::get().exit_prop, "C15");
+    unsafe { libc::atexit(atexit_marker) };
+    start(spec);
+    let sigs = [libc::SIGTERM, libc::SIGQUIT, libc::SIGINT, libc::SIGUSR1, libc::SIGHUP];
+    let ns = 1 + sim::work(3) as usize;
+    let mut pool = sigs.to_vec();
+    let mut my: Vec<i32> = Vec::new();
+    for _ in 0..ns {
+        my.push(pool.remove(sim::work(pool.len() as u32) as usize));
+    }
+    // per signal: ordered list of actions as registered; the model evaluates them in order
+    #[derive(Clone)]
+    enum Act {
+        SetBool(usize),
+        SetUsize(usize, usize),
+        Shutdown(usize, i32),
+    }
+    let nflags = 1 + sim::work(3) as usize;
+    let bools: Vec<Arc<AtomicBool>> = (0..nflags).map(|_| Arc::new(AtomicBool::new(false))).collect();
+    let usizes: Vec<Arc<AtomicUsize>> = (0..2).map(|_| Arc::new(AtomicUsize::new(0))).collect();
+    let mut mb = vec![false; nflags];
+    let mut mu = vec![0usize; 2];
+    let mut acts: BTreeMap<i32, Vec<(Act, SigId)>> = BTreeMap::new();
+    let nops = 4 + sim::work(28) as usize;
+    let mut hh = 0u64;
+    let mut desc = String::new();
+    let mut toggled = false;
+    // half of the histories start from the documented "double ctrl-c" pattern (shutdown and arming
+    // flag on the same signal and condition, in either registration order) and stay focused on it
+    let focused = sim::work(2) == 0;
+    let shutdown_first = sim::work(2) == 0;
+    for k in 0..nops {
+        shm::get().progress = k as u32;
+        sim::count(E_HIST_OPS, 1);
+        let r = if focused && k >= 2 { 25 + sim::work(75) } else { sim::work(100) };
+        if k < 2 || r < 25 {
+            let s = if focused { my[0] } else { my[sim::work(ns as u32) as usize] };
+            let a = if focused && k < 2 {
+                if (k == 0) == shutdown_first {
+                    Act::Shutdown(0, sim::work(256) as i32)
+                } else {
+                    Act::SetBool(0)
+                }
+            } else {
+                match sim::work(4) {
+                    0 => Act::SetBool(sim::work(nflags as u32) as usize),
+                    1 => Act::SetUsize(sim::work(2) as usize, 1 + sim::work(1000) as usize),
+                    _ => Act::Shutdown(sim::work(nflags as u32) as usize, sim::work(256) as i32),
+                }
+            };
+            let id = match &a {
+                Act::SetBool(i) => signal_hook::flag::register(s, Arc::clone(&bools[*i])),
+                Act::SetUsize(i, v) => signal_hook::flag::register_usize(s, Arc::clone(&usizes[*i]), *v),
+                Act::Shutdown(i, st) => signal_hook::flag::register_conditional_shutdown(s, *st, Arc::clone(&bools[*i])),
+            }
+            .expect("registration");
+            match &a {
+                Act::SetBool(i) => {
+                    hmix(&mut hh, 10 + *i as u64);
+                    desc.push_str(&format!("flag({},b{}) ", sig_name(s), i))
+                }
+                Act::SetUsize(i, v) => {
+                    hmix(&mut hh, 20 + *i as u64 + *v as u64 * 7);
+                    desc.push_str(&format!("usize({},u{}={}) ", sig_name(s), i, v))
+                }
+                Act::Shutdown(i, st) => {
+                    hmix(&mut hh, 30 + *i as u64 + *st as u64 * 11);
+                    desc.push_str(&format!("shutdown({},status {},if b{}) ", sig_name(s), st, i))
+                }
+            }
+            acts.entry(s).or_default().push((a, id));
+        } else if r < 50 {
+            // the application arms / disarms / resets
+            let i = if focused { 0 } else { sim::work(nflags as u32) as usize };
+            let v = sim::work(2) == 1;
+            if sim::work(2) == 0 {
+                bools[i].store(v, Ordering::SeqCst);
+            } else {
+                let old = bools[i].swap(v, Ordering::SeqCst);
+                if old != mb[i] {
+                    sim::report("C15", "flag-value", &format!("op {}: flag b{} held {} but the model says {}", k, i, old, mb[i]), true);
+                }
+            }
+            if mb[i] != v {
+                toggled = true;
+            }
+            mb[i] = v;
+            hmix(&mut hh, 40 + i as u64 * 2 + v as u64);
+            desc.push_str(&format!("b{}:={} ", i, v));
+            if sim::work(3) == 0 {
+                let j = sim::work(2) as usize;
+                usizes[j].store(0, Ordering::SeqCst);
+                mu[j] = 0;
+            }
+        } else if r < 60 && acts.values().any(|v| !v.is_empty()) {
+            let ss: Vec<i32> = acts.iter().filter(|(_, v)| !v.is_empty()).map(|(s, _)| *s).collect();
+            let s = ss[sim::work(ss.len() as u32) as usize];
+            let v = acts.get_mut(&s).unwrap();
+            let i = sim::work(v.len() as u32) as usize;
+            let (_, id) = v.remove(i);
+            if !signal_hook::low_level::unregister(id) {
+                sim::report("C15", "unregister-failed", "unregister of a flag action returned false", true);
+            }
+            hmix(&mut hh, 50 + i as u64);
+            desc.push_str(&format!("unregister({},#{}) ", sig_name(s), i));
+        } else {
+            let s = if focused && sim::work(4) != 0 { my[0] } else { my[sim::work(ns as u32) as usize] };
+            hmix(&mut hh, 60 + s as u64);
+            desc.push_str(&format!("deliver({}) ", sig_name(s)));
+            // model: run the actions in registration order
+            let mut dies: Option<i32> = None;
+            let mut nb = mb.clone();
+            let mut nu = mu.clone();
+            for (a, _) in acts.get(&s).map(|v| v.as_slice()).unwrap_or(&[]) {
+                match a {
+                    Act::SetBool(i) => nb[*i] = true,
+                    Act::SetUsize(i, v) => nu[*i] = *v,
+                    Act::Shutdown(i, st) => {
+                        if nb[*i] {
+                            dies = Some(*st);
+                            break;
+                        }
+                    }
+                }
+            }
+            let sh = shm::get();
+            shm::put_str(&mut sh.msg, &format!("history: {} | delivery of {} at op {}", desc, sig_name(s), k));
+            if let Some(st) = dies {
+                sim::count(E_SHUTDOWN_EXITS, 1);
+                sim::note(&desc);
+                sim::sig_mix(hh);
+                sim::mark_nontrivial();
+                sim::flush();
+                sh.expect_exit = st;
+                sh.expect_set = 1;
+                deliver(s, k as u64);
+                // still alive: the shutdown did not happen
+                sh.expect_set = 0;
+                sim::violation("C15", "shutdown-did-not-terminate", &format!("a conditional shutdown whose condition was true at that moment did not terminate the process (expected exit status {}); history: {}", st, desc));
+            } else {
+                sh.expect_set = 2;
+                deliver(s, k as u64);
+                sh.expect_set = 0;
+                mb = nb;
+                mu = nu;
+                for i in 0..nflags {
+                    if bools[i].load(Ordering::SeqCst) != mb[i] {
+                        sim::report("C15", "flag-value", &format!("after the delivery of {} at op {} flag b{} holds {}; the model says {} (history: {})", sig_name(s), k, i, !mb[i], mb[i], desc), true);
+                    }
+                }
+                for j in 0..2 {
+                    if usizes[j].load(Ordering::SeqCst) != mu[j] {
+                        sim::report("C15", "flag-value", &format!("after the delivery of {} at op {} usize flag u{} holds {}; the model says {} (history: {})", sig_name(s), k, j, usizes[j].load(Ordering::SeqCst), mu[j], desc), true);
+                    }
+                }
+            }
+        }
+    }
+    sim::note(&desc);
+    sim::sig_mix(hh);
+    if toggled {
+        sim::mark_nontrivial();
+    }
+    sim::finish_ok()
 }
